@@ -6,6 +6,19 @@ import os
 ROOT = os.path.dirname(os.path.dirname(os.path.abspath(__file__)))
 
 CLAIMED = {
+    "C01": dict(
+        category="model_checking",
+        technique="TLA+ pipeline state machine (TLC: liveness DoneReached, VerdictConsistent, ErrorGates; as-built deviations "
+                  "documented) + TLC-enumerated inputs (token soups, type forms x positions, scaling families, option vectors) "
+                  "and seeded mutants executed in isolated workers and by the binary, every execution validated as the end of "
+                  "a deviation-free pipeline behaviour by a TLA+ trace specification",
+        text="Pipeline.tla models the phases and the error gate; MC_Totality enumerates the inputs of the property's quantifier; "
+             "every execution is one event (verdict shape, exit status, signal, panic marker, wall time, size) that "
+             "Trace_Pipeline must accept; crashes, stack overflows and hangs of a worker are attributed to the case by the "
+             "supervisor and reported with the rendered input.",
+        note="Soups are exhaustive to length 2 (quick) / 3 (thorough) only; mutants are random (seeded). One finding is recorded "
+             "as open: path enumeration in cycle detection is exponential on dense cyclic graphs (pinned by an existing test).",
+        design_ref="5 (C01), 4 (Pipeline)"),
     "C08": dict(
         category="model_checking",
         technique="TLA+ schema-driven decoder (Schema.tla over CompilerSchema.tla generated from slice/Compiler/*.slice) used as "
